@@ -7,7 +7,7 @@
    profile (Debug: overflow panics, Release: wraps): theorems hold for both.      *)
 From Coq Require Import ZArith QArith List.
 From MW Require Import Model.Base Model.F64 Model.Num Model.Ratio32 Model.NumArith Model.NumSpec
-  Proofs.GcdProofs Proofs.Ratio32Proofs Proofs.NumProofs.
+  Proofs.GcdProofs Proofs.Ratio32Proofs Proofs.NumProofs Proofs.NumDivProofs.
 Import ListNotations.
 Open Scope Z_scope.
 
@@ -160,11 +160,43 @@ Definition C08_inexact_only_if_stmt : Prop := forall p a b r (known_fallback : n
   wfb a = true -> wfb b = true -> is_exact a = true -> is_exact b = true ->
   known_fallback a b = false -> num_add p a b = Ok r -> is_exact r = false ->
   forall x, wfb x = true -> is_exact x = true -> ~ (qv x == qv a + qv b)%Q.
-(* OPEN: modulo = flooring remainder; abs floor ceiling truncate numerator denominator expt *)
+(* modulo = flooring remainder.  The statement as first written (kept below, now REFUTED) is
+   false in one arm: Fixnum modulo an integer-valued Rational (number.rs:870-878 runs the
+   remainder on Rational64, then Rational32 + Rational32).  [modulo_known] is exactly that
+   class: (1) i64::MIN by -1/1 panics (MIN % -1, both profiles); (2) rem + divisor outside
+   i32: checked_add answers None, modulo continues on floats and the result is inexact.
+   Outside it the theorem holds for every pair of integer representations, both profiles.
+   STILL OPEN: abs floor ceiling truncate numerator denominator expt. *)
 Definition C08_modulo_exact_stmt : Prop := forall p a b za zb,
   wfb a = true -> wfb b = true -> int_of a = Some za -> int_of b = Some zb -> zb <> 0 ->
   both_rational a b = false ->
   exists r, num_modulo p a b = Ok (Some r) /\ int_of r = Some (za mod zb).
+
+Theorem C08_modulo_exact : forall p a b za zb,
+  wfb a = true -> wfb b = true -> int_of a = Some za -> int_of b = Some zb -> zb <> 0 ->
+  both_rational a b = false -> modulo_known a b = false ->
+  exists r, num_modulo p a b = Ok (Some r) /\ int_of r = Some (za mod zb).
+Proof. exact modulo_exact. Qed.
+Print Assumptions C08_modulo_exact.
+
+(* (modulo 2147483646 2147483647/1) is the float 2147483646.0 in both profiles *)
+Theorem C08_modulo_exact_refuted : ~ C08_modulo_exact_stmt.
+Proof.
+  intros H.
+  assert (Nz : 2 ^ 31 - 1 <> 0) by (intros E; discriminate E).
+  destruct (H Debug (Fixnum (2 ^ 31 - 2)) (Rational (2 ^ 31 - 1) 1) (2 ^ 31 - 2) (2 ^ 31 - 1)
+              eq_refl eq_refl eq_refl eq_refl Nz eq_refl) as [r [Hr Ir]].
+  assert (E : inexact_result (match num_modulo Debug (Fixnum (2 ^ 31 - 2)) (Rational (2 ^ 31 - 1) 1) with
+                              | Ok (Some x) => Ok x | _ => NoFuel end) = true) by (vm_compute; reflexivity).
+  rewrite Hr in E. clear Hr. destruct r as [z|z|n d|f]; cbn in E, Ir; discriminate.
+Qed.
+Print Assumptions C08_modulo_exact_refuted.
+
+(* the other member of the class: (modulo -9223372036854775808 -1/1) panics in both profiles *)
+Theorem C08_modulo_refuted_min : forall p,
+  num_modulo p (Fixnum (- 2 ^ 63)) (Rational (-1) 1) = Panic P_DIVOVF.
+Proof. intros []; vm_compute; reflexivity. Qed.
+Print Assumptions C08_modulo_refuted_min.
 
 (* ---- non-vacuity *)
 Example C08_example_mixed :
@@ -174,4 +206,15 @@ Example C08_example_mixed :
   num_quotient Debug (Fixnum (- 2 ^ 63)) (Fixnum (-1)) = Ok (Some (BigInt (2 ^ 63))) /\
   rchecked_addsub false Debug 32 (1, 3) (1, 6) = Ok (Some (1, 2)) /\
   igcd Debug 32 (- 2 ^ 31) 6 = Ok 2.
+Proof. repeat split; vm_compute; reflexivity. Qed.
+
+(* C08_modulo_exact: hypotheses satisfiable on each interesting arm, incl. Fixnum by n/1 *)
+Example C08_example_modulo :
+  modulo_known (Fixnum (-7)) (Rational 3 1) = false /\
+  num_modulo Debug (Fixnum (-7)) (Rational 3 1) = Ok (Some (Rational 2 1)) /\
+  modulo_known (Fixnum (- 2 ^ 63)) (Fixnum (-1)) = false /\
+  num_modulo Release (Fixnum (- 2 ^ 63)) (Fixnum (-1)) = Ok (Some (Fixnum 0)) /\
+  num_modulo Debug (BigInt (2 ^ 70 + 2)) (Rational (-5) 1) = Ok (Some (BigInt (-4))) /\
+  num_modulo Release (Fixnum (2 ^ 40 + 1)) (Rational (- 2 ^ 31) 1) = Ok (Some (Rational (- 2 ^ 31 + 1) 1)) /\
+  modulo_known (Fixnum (2 ^ 31 - 2)) (Rational (2 ^ 31 - 1) 1) = true.
 Proof. repeat split; vm_compute; reflexivity. Qed.
